@@ -366,6 +366,10 @@ type c04SmallWriter struct {
 	Peer  int   `json:"peer"`
 	Lens  []int `json:"lens"`   // body length of each call (0..15)
 	GapNs int64 `json:"gap_ns"` // virtual time between calls
+	// Reuse: the caller builds each body in a buffer with room to spare and passes
+	// the very same slice to WriteUpdate twice in a row: both UPDATEs carry what the
+	// caller put there
+	Reuse bool `json:"reuse,omitempty"`
 }
 
 type c04SmallCase struct {
@@ -479,6 +483,12 @@ func c04SmallProp(t *testing.T, r *hx.Run, sub string) func(c c04SmallCase) hx.V
 							time.Sleep(time.Duration(wr.GapNs))
 						}
 						b := smallBody(wi, l)
+						if wr.Reuse {
+							own := append(make([]byte, 0, len(b)+40), b...)
+							results[wi] = append(results[wi], res{b, uw.WriteUpdate(own)})
+							results[wi] = append(results[wi], res{b, uw.WriteUpdate(own)})
+							continue
+						}
 						results[wi] = append(results[wi], res{b, uw.WriteUpdate(b)})
 					}
 				}()
@@ -561,6 +571,7 @@ func genC04Small(rt *rapid.T) c04SmallCase {
 		for k := 0; k < min(nc, 12); k++ {
 			wr.Lens = append(wr.Lens, pick(rt, "len", 0, 0, 0, 1, 4, 15))
 		}
+		wr.Reuse = rapid.IntRange(0, 2).Draw(rt, "reuse") == 0
 		c.Writers = append(c.Writers, wr)
 	}
 	return c
